@@ -283,6 +283,11 @@ Definition first_node_event (st : sstate) (K : cluster) (e : sev) : bool :=
                end
   | _ => false
   end.
+(* Services carry no repeated address *)
+Definition esvc_ok (e : sev) : bool := match e with ESvc _ (Some s) => svc_ok s | _ => true end.
+(* the configuration the speaker finally runs does not select this node only through interfaces it lacks (F9) *)
+Definition final_cfg_ok (ev : env) (st : sstate) : bool :=
+  match s_cfg st with Some c => cfg_ifs_ok ev c | None => true end.
 Definition event_ok (ev : env) (e : sev) : bool :=
   match e with
   | ESvc _ (Some s) => svc_ok s
